@@ -40,14 +40,37 @@ def in_domain(text):
     return _COMPLEX_ATOMIC.search(text) is None
 
 
-def validate(cases, label, check_coords=False, workers=8, diag=False):
-    """Returns (accepted ids, coord notes {tid: [(kind, node)]}, TLCResult)."""
+def in_domain_tokens(vals):
+    """Same rule on a list of token spellings."""
+    n = len(vals)
+    for i in range(n - 1):
+        if vals[i] == "_Atomic" and vals[i + 1] == "(":
+            depth = 0
+            for j in range(i + 1, n):
+                v = vals[j]
+                if v == "(":
+                    depth += 1
+                    if depth > 1:
+                        return False
+                elif v == ")":
+                    depth -= 1
+                    if depth == 0:
+                        break
+                elif v in ("*", "["):
+                    return False
+    return True
+
+
+def validate(cases, label, check_coords=False, workers=8, diag=False, spans=False):
+    """Returns (accepted ids, coord notes {tid: [(kind, node)]}, TLCResult).  With spans=True the
+    result carries res.spans = {tid: [(node, first, last)]} for every matched expression node."""
     wd = workdir("match")
     try:
         p = os.path.join(wd, "traces.json")
         with open(p, "w") as f:
             json.dump(cases, f)
-        cfg = ("CONSTANT CheckCoords = %s\nINIT Init\nNEXT Next\nINVARIANT Acc\n" % ("TRUE" if check_coords else "FALSE")
+        cfg = ("CONSTANTS CheckCoords = %s\nEmitSpans = %s\nINIT Init\nNEXT Next\nINVARIANT Acc\n" % (
+            "TRUE" if check_coords else "FALSE", "TRUE" if spans else "FALSE")
                + ("INVARIANT Diag\n" if diag else "") + "CHECK_DEADLOCK FALSE\n")
         res = tlc("FrontTrace", cfg, wd=wd, env=dict(TRACES=p), workers=workers, xss="512m", timeout=3000, deque=True)
         tlc_ok(res, "FrontTrace " + label)
@@ -56,6 +79,12 @@ def validate(cases, label, check_coords=False, workers=8, diag=False):
             if n.startswith('<<"COORD"'):
                 parts = [x.strip().strip('"') for x in n.strip("<>").split(",")]
                 coords.setdefault(int(parts[1]), set()).add((parts[2], int(parts[3])))
+        res.spans = {}
+        if spans:
+            for n in res.notes:
+                if n.startswith('<<"SPAN"'):
+                    parts = [x.strip() for x in n.strip("<>").split(",")]
+                    res.spans.setdefault(int(parts[1]), []).append((int(parts[2]), int(parts[3]), int(parts[4])))
         return res.acc, coords, res
     finally:
         rmtree(wd)
